@@ -1,6 +1,7 @@
 import Driver.Util
 import Driver.Packed
 import Driver.Gen
+import Driver.Read
 /-! `modeld`: one operation per line on stdin, one canonical result per line on stdout. -/
 open Driver
 
@@ -8,6 +9,7 @@ def dispatch (line : String) : String :=
   match tokens line with
   | "packed" :: rest => Driver.Packed.run rest
   | "gen" :: rest => Driver.Gen.run rest
+  | "read" :: rest => Driver.Read.run rest
   | ["case", _] => "case"
   | _ => "bad-op"
 
